@@ -173,7 +173,7 @@ def gen_history(rng, mods):
         handles += 1  # (a with-block added below must not reuse this handle id)
     if rng.random() < 0.4:
         # a with-block: install, import, leave, import again
-        ops.append({"op": "with", "names": [rng.choice(hookable)], "checker": rng.choice(("spychk.A", "spychk.B")), "inside": [rng.choice(names)], "h": handles})
+        ops.append({"op": "with", "names": [rng.choice(hookable)], "checker": rng.choice(("spychk.A", "spychk.B")), "inside": [rng.choice(names)], "h": handles, "leave_by_exception": rng.random() < 0.5})
         ops.append({"op": "import", "module": rng.choice(names)})
     for m in rng.sample(names, min(2, len(names))):
         ops.append({"op": "import", "module": m})
